@@ -47,11 +47,11 @@ let show_out (o : Krylov.kout) = match o with
   | Krylov.KOk r -> if r.Krylov.k_oof then "MODEL-OUT-OF-FUEL" else
       string_of_int r.Krylov.k_it ^ " " ^ show_s r.Krylov.k_res ^ " " ^ show_vec r.Krylov.k_x
 
-let modelled = ["cg"; "bicgstab"; "richardson"; "gmres"; "fgmres"; "lgmres"]
+let modelled = ["cg"; "bicgstab"; "richardson"; "gmres"; "fgmres"; "lgmres"; "bicgstabl"]
 
 (* workspace of a solver object: junk-filled scratch for a fresh object (the object state that is
    NOT scratch -- the LGMRES buffer of augmentation vectors -- starts empty as in the constructor) *)
-type ws = WCg of Krylov.cg_ws | WRi of Krylov.ri_ws | WBs of Krylov.bs_ws | WGm of Krylov.gm_ws | WLg of Krylov.lg_ws
+type ws = WCg of Krylov.cg_ws | WRi of Krylov.ri_ws | WBs of Krylov.bs_ws | WGm of Krylov.gm_ws | WLg of Krylov.lg_ws | WBl of Krylov.bl_ws
 let junk_gm n = { Krylov.g_H = (fun _ _ -> junkv); g_s = (fun _ -> junkv); g_cs = (fun _ -> junkv); g_sn = (fun _ -> junkv);
                   g_r = jvec n; g_v = (fun _ -> jvec n); g_z = (fun _ -> jvec n) }
 let fresh_ws name n : ws = match name with
@@ -60,6 +60,7 @@ let fresh_ws name n : ws = match name with
   | "bicgstab" -> WBs { Krylov.bs_r = jvec n; bs_p = jvec n; bs_v = jvec n; bs_s = jvec n; bs_t = jvec n; bs_rh = jvec n; bs_T = jvec n }
   | "gmres" | "fgmres" -> WGm (junk_gm n)
   | "lgmres" -> WLg { Krylov.l_g = junk_gm n; l_data = (fun _ -> jvec n); l_outer = Krylov.cb_clear }
+  | "bicgstabl" -> WBl { Krylov.l_Rt = jvec n; l_X = jvec n; l_B = jvec n; l_T = jvec n; l_R = (fun _ -> jvec n); l_U = (fun _ -> jvec n) }
   | _ -> failwith "unsupported"
 (* one call on an object in state w: returns the printed result and the state after the call *)
 let call_model name (p : prm) left (c : call) (w : ws) : string * ws =
@@ -71,6 +72,7 @@ let call_model name (p : prm) left (c : call) (w : ws) : string * ws =
   | "gmres", WGm w -> let (o, w') = Krylov.gmres sc c.opA c.opP kp c.f c.x0 w in (show_out o, WGm w')
   | "fgmres", WGm w -> let (o, w') = Krylov.fgmres sc c.opA c.opP kp c.f c.x0 w in (show_out o, WGm w')
   | "lgmres", WLg w -> let (o, w') = Krylov.lgmres sc c.opA c.opP kp c.f c.x0 w in (show_out o, WLg w')
+  | "bicgstabl", WBl w -> let (o, w') = Krylov.bicgstabl sc c.opA c.opP kp c.f c.x0 w in (show_out o, WBl w')
   | _ -> ("UNSUPPORTED-SOLVER", w)
 let run_model name (p : prm) left (c : call) : string =
   if not (List.mem name modelled) then "UNSUPPORTED-SOLVER"
